@@ -129,6 +129,7 @@ type Explorer struct {
 	viol  map[string]*Violation
 	track map[string]bool
 	sites map[*ast.CallExpr]string
+	unsafe map[string]bool
 	// Undecided constructs (fail closed)
 	MaxSteps int
 }
@@ -409,6 +410,7 @@ func New(w *core.World, fi *core.FuncInfo, r *Rule) *Explorer {
 		})
 	}
 	walk(fi.Decl.Body, false)
+	ex.unsafe = unsafe
 	count := map[string]int{}
 	ast.Inspect(fi.Decl, func(n ast.Node) bool {
 		switch x := n.(type) {
@@ -441,6 +443,22 @@ func (ex *Explorer) Run(fi *core.FuncInfo) []*Violation {
 			s.Env[k] = T
 		} else {
 			s.Env[k] = F
+		}
+	}
+	// named results start as zero values: pointer-like results are nil
+	if fi.Decl.Type.Results != nil {
+		for _, f := range fi.Decl.Type.Results.List {
+			for _, nm := range f.Names {
+				if ex.unsafe[nm.Name] {
+					continue
+				}
+				switch ex.Info.TypeOf(nm).Underlying().(type) {
+				case *types.Pointer, *types.Interface, *types.Slice, *types.Map, *types.Chan, *types.Signature:
+					k := nm.Name + " == nil"
+					ex.track[k] = true
+					s.Env[k] = T
+				}
+			}
 		}
 	}
 	exits := ex.run(fi.Decl.Body, s, false)
